@@ -179,8 +179,9 @@ class Scheduler:
                     self.pending[t] = ('acq', 'lock')
 
     # ---- controller ------------------------------------------------------------------------------
-    def run(self, bodies, choices, max_steps=10000):
-        """bodies: list of callables (one per thread); choices: list of tids to prefer at each step.
+    def run(self, bodies, choices, max_steps=10000, chooser=None, shim=None):
+        """bodies: list of callables (one per thread); choices: list of tids to prefer at each step, or
+        chooser(step, enabled, pending ops, lock holder) -> tid.
         Returns (trace, enabled_sets, chosen) ; raises RuntimeError on deadlock"""
         self.reset()
         threads = []
@@ -221,7 +222,10 @@ class Scheduler:
                 starting = [t for t in en if self.pending.get(t, ('',))[0] == 'start']
                 if starting:
                     en = starting[:1]      # a thread start commutes with everything: no branching
-                pick = choices[step] if step < len(choices) and choices[step] in en else en[0]
+                if chooser is not None:
+                    pick = chooser(step, en, {t: self.pending.get(t) for t in en}, shim.holder if shim is not None else None)
+                else:
+                    pick = choices[step] if step < len(choices) and choices[step] in en else en[0]
                 enabled_sets.append(en)
                 chosen.append(pick)
                 step += 1
@@ -279,4 +283,67 @@ def explore(sch, make_bodies, limit=100000, stop=None):
                 break
             i -= 1
         if i < 0:
+            return
+
+
+def independent(a, b, ta, tb, holder):
+    """may the transitions of threads ta (pending op a) and tb (pending op b) be swapped?  A transition runs from one
+    scheduling point to the next, so a thread that holds the lock may release it inside its transition."""
+    if a is None or b is None:
+        return False
+    if a[0] == 'start' or b[0] == 'start':
+        return True
+    if a[0] == 'acq' or b[0] == 'acq':
+        if a[0] == 'acq' and b[0] == 'acq':
+            return False
+        other = tb if a[0] == 'acq' else ta
+        return holder != other
+    if holder in (ta, tb):
+        # the holder's transition may contain the release: it only conflicts with lock operations (handled above)
+        pass
+    return not (a[1] == b[1] and (a[0] == 'store' or b[0] == 'store'))
+
+
+def explore_sleep(sch, make_bodies, limit=100000):
+    """All schedules up to commutation of independent transitions (sleep sets, stateless DFS with re-execution).
+    make_bodies() -> (bodies, finish, shim).  Yields finish(trace, chosen) for every completed execution."""
+    frames = []       # per step: en, ops, holder, sleep, done, chosen
+    n = 0
+    while True:
+        bodies, finish, shim = make_bodies()
+        blocked = [False]
+
+        def chooser(step, en, ops, holder):
+            if step < len(frames):
+                f = frames[step]
+                return f['chosen'] if f['chosen'] in en else en[0]
+            if frames:
+                p = frames[-1]
+                pop_ = p['ops'].get(p['chosen'])
+                sleep = {t for t in (p['sleep'] | p['done']) if t != p['chosen'] and t in ops and
+                         independent(p['ops'].get(t), pop_, t, p['chosen'], p['holder']) and p['ops'].get(t) == ops.get(t)}
+            else:
+                sleep = set()
+            cand = [t for t in en if t not in sleep]
+            if not cand:
+                blocked[0] = True          # every continuation from here is covered by another schedule
+                cand = en
+            frames.append({'en': list(en), 'ops': dict(ops), 'holder': holder, 'sleep': sleep, 'done': set(), 'chosen': cand[0]})
+            return cand[0]
+        trace, enabled, chosen = sch.run(bodies, [], chooser=chooser, shim=shim)
+        del frames[len(chosen):]
+        n += 1
+        if not blocked[0]:
+            yield finish(trace, chosen)
+        if n >= limit:
+            return
+        while frames:
+            f = frames[-1]
+            f['done'].add(f['chosen'])
+            cand = [t for t in f['en'] if t not in f['sleep'] and t not in f['done']]
+            if cand:
+                f['chosen'] = cand[0]
+                break
+            frames.pop()
+        if not frames:
             return
